@@ -77,7 +77,11 @@ class DictStorage(QueueStorage):
         return new_attempts
 
     def set_recipients_delivered(self, id, rcpt_indexes):
-        self._remove_delivered_rcpts(self.env_db[id], rcpt_indexes)
+        # Assign the envelope back, as the other updates do: a shelve hands
+        # out copies, and the change would be lost.
+        envelope = self.env_db[id]
+        self._remove_delivered_rcpts(envelope, rcpt_indexes)
+        self.env_db[id] = envelope
         log.update_meta(id, delivered_indexes=rcpt_indexes)
 
     def load(self):
